@@ -254,17 +254,9 @@ theorem RG_addCore {s : SeqState} (hi : SeqInv s) (p : PulseIn) (n : ChName)
                 have hm := mapRefs_chans (s.setChan c') c.cfg.basis last.targets
                   (·.updateLastUsed newSlot.tf)
                 have h2 : SG (s.setChan c') _ := SG_of_chans_eq h1.1 hm.1 hm.2.1 hm.2.2
-                cases drift with
-                | none =>
-                  simp only
-                  split
-                  · exact SG.trans h1 (SG.trans h2 (RG_phaseShift h2.1 _ _ _))
-                  · exact SG.trans h1 h2
-                | some d =>
-                  simp only
-                  split
-                  · exact SG.trans h1 (SG.trans h2 (RG_phaseShift h2.1 _ _ _))
-                  · exact SG.trans h1 h2
+                split
+                · exact SG.trans h1 (SG.trans h2 (RG_phaseShift h2.1 _ _ _))
+                · exact SG.trans h1 h2
 
 theorem ensureBasis_chans (s : SeqState) (b : Basis) :
     (s.ensureBasis b).chans = s.chans ∧ (s.ensureBasis b).dev = s.dev ∧ (s.ensureBasis b).nQ = s.nQ := by
